@@ -422,7 +422,13 @@ def check_arm(rep, F, rules, op, it_short, kind, p, mut, lpm, mode):
                    sample={"inputs": ins, "pushes": [x[0] for x in got_push], "item": got} if len(want_items) >= 2 and em else None)
         return
     if not (push_struct_ok and emit_struct_ok):
-        return          # a structural difference is the business of C05-C07 / C13
+        if mode == "ann" and not push_struct_ok and rules.get("pairing"):
+            # the annotation invariant attaches a node's own value exactly when an entry *pairs* that node: entries that pair
+            # other nodes than specified leave the invariant unestablished
+            rep.bad(rules["pairing"], where, "pairing", "%s: the entries to push are %s, the code pushes %s — the pushed entries do not pair the specified "
+                    "nodes, so the LPM annotation invariant (own value of a paired node, else inherited) is not established (inputs: %s)"
+                    % (where, [x[0] for x in want_items], [x[0] for x in got_push], ins), config=F.config)
+        return          # otherwise a structural difference is the business of C05-C07 / C13
     if mode == "ann":
         ok = True
         if got_push != want_items:
